@@ -314,6 +314,28 @@ pub fn family_input(f: &str, n: usize) -> String {
 pub fn run(ctx: &mut Ctx) {
     let quick = ctx.tier == Tier::Quick;
     let mut pool = Pool::new(if quick { 3000 } else { 20000 });
+    // the one public constructor besides parsing: Range::any() (both ends unbounded)
+    ctx.stratum("A-range-any", true);
+    if ctx.take() {
+        match guarded(Range::any) {
+            Ok(any) => {
+                exercise_range(ctx, &any, "Range::any()", &pool);
+                let a = ("Range::any()".to_string(), any, 0u8);
+                for t in ["*", ">=1.2.3 <2.0.0", "<1.0.0-a || >2", "1.2.3", "<=1"] {
+                    if let Ok(r) = Range::parse(t) {
+                        let mut out = vec![];
+                        exercise_pair(ctx, &a, &(t.to_string(), r, 0u8), &mut out);
+                        for o in out {
+                            let mut out2 = vec![];
+                            exercise_pair(ctx, &o, &a, &mut out2);
+                        }
+                    }
+                }
+                pool.add_range("Range::any()".into(), a.1, 0);
+            }
+            Err(p) => report_panic(ctx, "Range::any", json!("Range::any()"), p),
+        }
+    }
     // ---- XR: exhaustive range alphabet
     ctx.stratum("XR-exhaustive-range-alphabet", true);
     let k = SIGMA_R.len();
